@@ -101,6 +101,24 @@ def engine(prog):
     return terms.Engine(prog, inline=True, hooks=E.Hooks([LOW], opaque_names=names))
 
 
+def all_state_variables(vars_, g):
+    """`ctx.state_variables()`, or the same list spelled out: the state variable of every network variable of the graph, in order
+    (library assumption L10: SymbolicContext::state_variables()[i] == get_state_variable(VariableId i), one per network variable)."""
+    while vars_[0] == "call" and isinstance(vars_[1], str) and vars_[1].rsplit("::", 1)[-1] in ("clone", "as_slice", "borrow", "as_ref", "deref", "to_vec") and len(vars_[2]) == 1:
+        vars_ = vars_[2][0]
+    if vars_[0] == "call" and isinstance(vars_[1], str) and vars_[1].endswith("::state_variables"):
+        return True
+    import norm
+    v = norm.Normalizer()(vars_)
+    if v[0] == "collect" and len(v) == 3:
+        src, body = v[1], v[2]
+        if src[0] == "call" and isinstance(src[1], str) and src[1].endswith("::variables") and src[2] == (g,) and "SymbolicAsyncGraph" in src[1] \
+                and body[0] == "call" and isinstance(body[1], str) and body[1].endswith("::get_state_variable") and len(body[2]) == 2 \
+                and body[2][1] == ("elem", src) and body[2][0][0] == "call" and str(body[2][0][1]).endswith("::symbolic_context") and body[2][0][2] == (g,):
+            return True
+    return False
+
+
 def check_comparator(rep, rule, eng, f, mode):
     rep.functions.add(f.qual)
     pn = f.param_names()
@@ -248,7 +266,7 @@ def check_primitives(prog, rep, rule):
             bdd, vars_ = ex[0][2][0], ex[0][2][1]
             if not terms.mentions_param(bdd, pn[1]):
                 problems.append("projection is not applied to the set argument")
-            if not (vars_[0] == "call" and vars_[1].endswith("::state_variables")):
+            if not all_state_variables(vars_, P(pn[0])):
                 problems.append(f"projected variable set is {short(vars_, 80)}, not exactly symbolic_context().state_variables()")
         rep.check(not problems, rule, "project_out_bn_vars", f"{f.file}:{f.line}",
                   "exists over exactly the state variables", "; ".join(problems))
